@@ -146,27 +146,28 @@ func (c *config) mode() string {
 
 // world is one instance: real mock cluster + mock PD (wrapped) + real RegionCache + mock RPC client.
 type world struct {
-	cfg       *config
-	st        *stats
-	cluster   *mocktikv.Cluster
-	pd        *stalePD
-	cache     *locate.RegionCache
-	client    client.Client
-	stores    []uint64
-	up        map[uint64]bool
-	hist      [][]*router.Region      // region table after every region-changing topology op (hist[0] = initial)
-	verRng    map[[2]uint64][2]string // (region id, version) -> range, from every table ever recorded
-	prev      locate.VerifC09Dump     // last white-box dump (for the no-regression check)
-	check     bool                    // oracles on/off (off while replaying a prefix)
-	report    func(key, what string)  // violation sink
-	curOp     string                  // for messages
-	tp        []regionInfo            // cached ground truth (reset by snapshot)
-	served0   int                     // stale answers served before the current op
-	dead      bool                    // the code under test panicked: locks may be held, do not touch the instance again
-	opPre     locate.VerifC09Dump     // dump at the start of the current op (messages)
-	reloadHit bool                    // the current lookup touches a usable cached entry that is scheduled for reload
-	enmOrd    int                     // != 0 while a sendx op runs: EpochNotMatch answers of the store are rewritten TiKV-like in this order
-	enmDone   int                     // EpochNotMatch answers rewritten by the current op
+	cfg          *config
+	st           *stats
+	cluster      *mocktikv.Cluster
+	pd           *stalePD
+	cache        *locate.RegionCache
+	client       client.Client
+	stores       []uint64
+	up           map[uint64]bool
+	hist         [][]*router.Region      // region table after every region-changing topology op (hist[0] = initial)
+	verRng       map[[2]uint64][2]string // (region id, version) -> range, from every table ever recorded
+	epochPatched bool                    // the topology op just applied was edited by the harness (splitl)
+	prev         locate.VerifC09Dump     // last white-box dump (for the no-regression check)
+	check        bool                    // oracles on/off (off while replaying a prefix)
+	report       func(key, what string)  // violation sink
+	curOp        string                  // for messages
+	tp           []regionInfo            // cached ground truth (reset by snapshot)
+	served0      int                     // stale answers served before the current op
+	dead         bool                    // the code under test panicked: locks may be held, do not touch the instance again
+	opPre        locate.VerifC09Dump     // dump at the start of the current op (messages)
+	reloadHit    bool                    // the current lookup touches a usable cached entry that is scheduled for reload
+	enmOrd       int                     // != 0 while a sendx op runs: EpochNotMatch answers of the store are rewritten TiKV-like in this order
+	enmDone      int                     // EpochNotMatch answers rewritten by the current op
 }
 
 type codecClient struct {
@@ -337,9 +338,46 @@ func regionOf(t []regionInfo, k string) *regionInfo {
 func (w *world) snapshot() {
 	w.tp = nil // the region table changed
 	s := w.cluster.ScanRegions(nil, nil, 0)
+	if w.check && len(w.hist) > 0 && !w.epochPatched {
+		w.checkClusterEpochs(snapInfo(w, w.hist[len(w.hist)-1]), snapInfo(w, s))
+	}
+	w.epochPatched = false
 	w.hist = append(w.hist, s)
 	for _, r := range snapInfo(w, s) {
 		w.verRng[[2]uint64{r.id, r.ver}] = [2]string{r.start, r.end}
+	}
+}
+
+// checkClusterEpochs: the mock cluster itself has to order region descriptions the way the client's
+// region cache relies on (and TiKV guarantees): a region whose key range changed (split, merge) carries
+// a version greater than that of every region of the previous table that overlaps its new range -
+// otherwise a client still holding one of those sees the new description as not newer and keeps or
+// prefers the old one. Descriptions whose range did not change keep their version.
+func (w *world) checkClusterEpochs(old, cur []regionInfo) {
+	overlap := func(a, b *regionInfo) bool {
+		return (a.end == "" || b.start < a.end) && (b.end == "" || a.start < b.end)
+	}
+	for i := range cur {
+		n := &cur[i]
+		changed := true
+		for j := range old {
+			o := &old[j]
+			if o.id == n.id && o.start == n.start && o.end == n.end {
+				changed = false
+				if n.ver != o.ver {
+					w.report("mock-cluster:version-changed-without-range-change", fmt.Sprintf("%s: region %d [%s,%s) went from version %d to %d although its range did not change", w.curOp, n.id, n.start, n.end, o.ver, n.ver))
+				}
+			}
+		}
+		if !changed {
+			continue
+		}
+		for j := range old {
+			o := &old[j]
+			if overlap(n, o) && n.ver <= o.ver {
+				w.report("mock-cluster:region-version-not-advanced", fmt.Sprintf("%s: region %d now covers [%s,%s) at version %d, but the previous table had region %d [%s,%s) at version %d overlapping it: a client holding that description does not see the new one as newer", w.curOp, n.id, n.start, n.end, n.ver, o.id, o.start, o.end, o.ver))
+			}
+		}
 	}
 }
 
@@ -610,6 +648,7 @@ func (w *world) apply(o Op) (outcome string) {
 				w.st.rightDerive.Add(1)
 			}
 			old.Meta.StartKey, old.Meta.EndKey, nw.Meta.StartKey, nw.Meta.EndKey = nw.Meta.StartKey, nw.Meta.EndKey, old.Meta.StartKey, old.Meta.EndKey
+			w.epochPatched = true // the harness swapped the halves itself: not the mock's own result
 		}
 		w.snapshot()
 	case "merge":
